@@ -140,12 +140,21 @@ class SimpleOperationExecutor:
         try:
             result = self.file_comparison_result(
                 filename, file_comparison_name)
-        except FileNotFoundError:
+        except (FileNotFoundError, NotADirectoryError):
+            # A NotADirectoryError indicates that a parent directory is a
+            # regular file, so the file doesn't exist
             raise FileNotFoundError(
                 'The requested file does not exist: {:s}'.format(filename))
         except IsADirectoryError:
-            raise IsADirectoryError(
-                'Cannot read a directory: {:s}'.format(filename))
+            # The directory might be removed in the virtual state of the file
+            # system, e.g. if it was created during the previous build
+            if self.is_dir(filename, created_files):
+                raise IsADirectoryError(
+                    'Cannot read a directory: {:s}'.format(filename))
+            else:
+                raise FileNotFoundError(
+                    'The requested file does not exist: {:s}'.format(
+                        filename))
 
         # The file must exist, since we didn't raise a FileNotFoundError or an
         # IsADirectoryError
